@@ -2,7 +2,7 @@
    executable class PathSafe.safe_path. *)
 From Coq Require Import List NArith ZArith Bool Lia.
 Import ListNotations.
-From JB Require Import Constants Bytes Utf8 Num Value Decimal JsonText TreeOps Path PathInd PathParse TextRoundtrip KeyPathRoundtrip PathSafe.
+From JB Require Import Constants Bytes Utf8 Num Value Decimal JsonText TreeOps Render Path PathInd PathParse TextRoundtrip KeyPathRoundtrip PathSafe.
 Open Scope N_scope.
 Set Default Timeout 120.
 
@@ -465,15 +465,17 @@ Lemma path_value_digit d x : is_digit d = true ->
   palt (pmap (fun b => PVNum (NFloat b)) (pdouble (d :: x))) (fun _ => pmap PVStr (pstring (d :: x))))).
 Proof.
   intros H. unfold is_digit in H. apply andb_true_iff in H. destruct H as [H1 H2]. apply N.leb_le in H1. apply N.leb_le in H2.
-  unfold path_value. cbn [ptag].
+  unfold path_value. cbn [ptag pchar].
   replace (d =? 110) with false by (symmetry; apply N.eqb_neq; lia).
   replace (d =? 116) with false by (symmetry; apply N.eqb_neq; lia).
-  replace (d =? 102) with false by (symmetry; apply N.eqb_neq; lia). reflexivity.
+  replace (d =? 102) with false by (symmetry; apply N.eqb_neq; lia).
+  replace (d =? 45) with false by (symmetry; apply N.eqb_neq; lia). reflexivity.
 Qed.
 Lemma path_value_minus x :
   path_value (45 :: x) =
   palt (pdo (r, v) <- pi64 (45 :: x); if not_float_tail r then POk r (PVNum (NInt v)) else PErr) (fun _ =>
-  palt (pmap (fun b => PVNum (NFloat b)) (pdouble (45 :: x))) (fun _ => pmap PVStr (pstring (45 :: x)))).
+  palt (pmap (fun b => PVNum (NFloat b)) (pdouble (45 :: x))) (fun _ =>
+  palt (pmap (fun _ => PVNum (NFloat F_NEG_INF)) (ptag_no_case [105; 110; 102] x)) (fun _ => PErr))).
 Proof. reflexivity. Qed.
 Lemma path_value_quote x : path_value (34 :: x) = pmap PVStr (pstring (34 :: x)).
 Proof. reflexivity. Qed.
@@ -1230,6 +1232,45 @@ Proof.
   cbn [val_follow hd_in] in Hr. apply existsb_eqb_in in Hr. destruct Hr as [<- | [<- | []]]; vm_compute; repeat split; reflexivity.
 Qed.
 
+(* after the fix of `-inf`: negative infinity (0xFFF0000000000000, what a literal such as -1e999 overflows to) printed as
+   "-inf" -- which is what the crate's Display prints -- reads back: u64, i64 and nom's double all decline (double reads
+   `inf` only without a sign) and the alternative added by the fix takes it.  Before the fix this hypothesis was
+   unsatisfiable for this float (no alternative of the literal reader produced it). *)
+Lemma path_float_reads_back_neg_inf pf : pf F_NEG_INF = [45; 105; 110; 102] -> path_float_reads_back pf F_NEG_INF.
+Proof.
+  intros E. split.
+  - exists 45, [105; 110; 102]. split; [exact E|]. repeat split; discriminate.
+  - intros rest Hr. rewrite E. destruct rest as [|c r]; [vm_compute; reflexivity|].
+    cbn [val_follow hd_in] in Hr. apply existsb_eqb_in in Hr. destruct Hr as [<- | [<- | []]]; vm_compute; reflexivity.
+Qed.
+Example path_float_reads_back_neg_inf_example : path_float_reads_back (fun _ => [45; 105; 110; 102]) F_NEG_INF.
+Proof. apply path_float_reads_back_neg_inf. reflexivity. Qed.
+(* the printer of the extracted model (Render.float_placeholder prints the non-finite values the way the crate does: inf,
+   -inf, NaN) satisfies the hypothesis on all three non-finite doubles *)
+Lemma path_float_reads_back_nonfinite b : nonfinite_floats b = true -> path_float_reads_back float_placeholder b.
+Proof.
+  unfold nonfinite_floats. intros H. apply orb_true_iff in H. destruct H as [H|H]; [apply orb_true_iff in H; destruct H as [H|H]|];
+    apply N.eqb_eq in H; subst b.
+  - split; [exists 105, [110; 102]; repeat split; discriminate|].
+    intros rest Hr. destruct rest as [|c r]; [vm_compute; reflexivity|].
+    cbn [val_follow hd_in] in Hr. apply existsb_eqb_in in Hr. destruct Hr as [<- | [<- | []]]; vm_compute; reflexivity.
+  - apply path_float_reads_back_neg_inf. vm_compute. reflexivity.
+  - split; [exists 78, [97; 78]; repeat split; discriminate|].
+    intros rest Hr. destruct rest as [|c r]; [vm_compute; reflexivity|].
+    cbn [val_follow hd_in] in Hr. apply existsb_eqb_in in Hr. destruct Hr as [<- | [<- | []]]; vm_compute; reflexivity.
+Qed.
+(* the literal reader on its own: `-inf` in any letter case, and what follows is left alone (`-infinity` leaves `inity`,
+   which no caller accepts; `- inf` is not a literal) *)
+Example path_value_neg_inf_examples :
+  path_value [45; 105; 110; 102] = POk [] (PVNum (NFloat F_NEG_INF)) /\
+  path_value [45; 73; 110; 70; 41] = POk [41] (PVNum (NFloat F_NEG_INF)) /\
+  path_value [45; 105; 110; 102; 105; 110; 105; 116; 121] = POk [105; 110; 105; 116; 121] (PVNum (NFloat F_NEG_INF)) /\
+  path_value [45; 32; 105; 110; 102] = PErr /\
+  path_value [45; 110; 97; 110] = PErr /\
+  path_value [43; 105; 110; 102] = PErr /\
+  path_value [105; 110; 102] = POk [] (PVNum (NFloat F_INF)).
+Proof. vm_compute. repeat split; reflexivity. Qed.
+
 (* the offset produced by `last - n` is an i32 (what I32.saturating_neg_in_range said of the old formula) *)
 Lemma last_minus_i32 v n : last_minus v = Some n -> (-2147483648 <= n <= 2147483647)%Z.
 Proof.
@@ -1284,3 +1325,27 @@ Lemma name_needing_quotes_refuted pf :
   parse_json_path [36; 46; 34; 97; 32; 98; 34] = Ok [PRoot; PDotField [97; 32; 98]] /\
   parse_json_path (show_json_path pf [PRoot; PDotField [97; 32; 98]]) = Err EOther.
 Proof. vm_compute. split; reflexivity. Qed.
+
+(* 5. before the fix of `-inf` (crate e1187a7) the literal reader had no alternative between `double` and the string
+      literal: `-1e999` was read as negative infinity, whose printed text `-inf` the reader declined; the fixed reader
+      takes it.  (This is why negative infinity could not be let into the class before, and can now:
+      path_float_reads_back_neg_inf.) *)
+Definition path_value_old (bs : list N) : pres pvalue :=
+  palt (pmap (fun _ => PVNull) (ptag [110; 117; 108; 108] bs)) (fun _ =>
+  palt (pmap (fun _ => PVBool true) (ptag [116; 114; 117; 101] bs)) (fun _ =>
+  palt (pmap (fun _ => PVBool false) (ptag [102; 97; 108; 115; 101] bs)) (fun _ =>
+  palt (pdo (r, v) <- pu64 bs; if not_float_tail r then POk r (PVNum (NUInt (Z.to_N v))) else PErr) (fun _ =>
+  palt (pdo (r, v) <- pi64 bs; if not_float_tail r then POk r (PVNum (NInt v)) else PErr) (fun _ =>
+  palt (pmap (fun b => PVNum (NFloat b)) (pdouble bs)) (fun _ =>
+        pmap PVStr (pstring bs))))))).
+Lemma neg_inf_old_refuted :
+  path_value_old [45; 49; 101; 57; 57; 57] = POk [] (PVNum (NFloat F_NEG_INF)) /\
+  show_pvalue float_placeholder (PVNum (NFloat F_NEG_INF)) = [45; 105; 110; 102] /\
+  path_value_old [45; 105; 110; 102] = PErr /\
+  path_value [45; 105; 110; 102] = POk [] (PVNum (NFloat F_NEG_INF)) /\
+  (forall bs, hd 0 bs <> 45 -> path_value bs = path_value_old bs).
+Proof.
+  split; [vm_compute; reflexivity|]. split; [vm_compute; reflexivity|]. split; [vm_compute; reflexivity|]. split; [vm_compute; reflexivity|].
+  intros bs H. unfold path_value, path_value_old. destruct bs as [|c r]; [reflexivity|]. cbn [hd] in H. apply N.eqb_neq in H.
+  cbn [pchar]. rewrite H. reflexivity.
+Qed.
